@@ -6,7 +6,12 @@ FIELDS = ['oq', 'io', 'iopl', 'os', 'is', 'ispl', 'idi', 'oo', 'bo', 'odi', 'dis
 THEOREM = 'Props/C03.list (on_order_exact_period, on_order_exact_ext, orders_arrive, shiftPipe_get)'
 
 def oracle(spec, tr, init):
-	return simlib.oracle_C03(spec, tr, init)
+	# "... unless a transit- or receipt-pausing disruption at the receiver delays it, in which case NOTHING IS LOST": on every edge into a node
+	# with such a disruption, what was shipped is received, in transit or held at the door (C01's edge-flow identity, from whichever supplier)
+	pos, edges, inE, outE = simlib.layout(spec)
+	paused = {e for e, (a, b) in enumerate(edges) if b is not None and (spec['nodes'][str(spec['labels'][b])]['dis'] or {}).get('type') in ('RP', 'TP')}
+	lost = [x for x in simlib.oracle_C01(spec, tr, init) if 'shipped != received + in transit + held at the door' in x and any(('edge%d(' % e) in x for e in paused)]
+	return simlib.oracle_C03(spec, tr, init) + ['nothing is lost while a pause delays a shipment: ' + x for x in lost]
 
 def run(rep, drv):
 	th = rep.tier == 'thorough'
